@@ -6,7 +6,8 @@
 //!
 //! State   = (set of available proofs by shape id, content of the next-layer cache slot,
 //!            content of the aggregation cache slot, current `ProveNextLayerParams`).
-//! Actions = `L(x, none|fresh|slot)`, `A(x, y, none|slot)` (ordered pairs, optionally through
+//! Actions = `L(x, none|fresh|slot|reuse|reuse_self)` (`reuse`: circuit + verifier_result + prep built
+//!            once for another proof of x's shape id and used unchanged; `reuse_self`: control), `A(x, y, none|slot)` (ordered pairs, optionally through
 //!            the `_cross` entry point), `P(k)` (switch params).
 //! Oracle per executed call (engine::judge + `clauses` below):
 //!   * no panic; `Ok` unless a cache prepared for ANOTHER circuit/params was handed in
@@ -231,7 +232,10 @@ struct World {
 
 impl World {
     fn register(&mut self, obj: ProofObj, tag: String, cnt: &str, dig: u64, label: String, level: usize) -> ShapeId {
-        let key = format!("{tag}|L={dig:016x}");
+        // Base proofs (level 0) additionally carry their base name: two base circuits can have one
+        // proof shape and one next-layer circuit (B0, B2 and W0 do) and would otherwise be ONE
+        // initial proof, the later one silently dropped. A finer partition is always sound.
+        let key = if level == 0 { format!("{tag}|L={dig:016x}|base={label}") } else { format!("{tag}|L={dig:016x}") };
         if let Some(&id) = self.by_key.get(&key) {
             self.shape_merges += 1;
             if self.shapes[id].insts.len() < 2 {
@@ -559,15 +563,16 @@ fn main() {
         cross,
     };
     let mut scenarios = if ctx.quick() {
+        // cheap scenarios first: a budget cut on a slow machine then drops the tail of the big ones
         vec![
+            // L-reuse over two children of one shape and different wiring (other preprocessed commitment)
+            sc(&["W0"], 1, 1, false),
+            // a child whose prover reduced its ALU lanes (stark_common != the prover data it came with)
+            sc(&["B2"], 1, 2, false),
             sc(&["U0", "U1", "B0"], 3, 2, false),
             // one base, two parameter sets, one step deeper: histories such as
             // "prepare under P0 ; switch to P1 ; prove with the held preparation"
             sc(&["B0"], 2, 3, false),
-            // a child whose prover reduced its ALU lanes (stark_common != the prover data it came with)
-            sc(&["B2"], 1, 2, false),
-            // L-reuse over two children of one shape and different wiring (other preprocessed commitment)
-            sc(&["W0"], 1, 1, false),
         ]
     } else {
         vec![
@@ -581,7 +586,9 @@ fn main() {
         ]
     };
     if ctx.opt("depth").is_some() || ctx.opt("bases").is_some() || ctx.opt("params").is_some() || ctx.opt("cross").is_some() {
-        let mut al = scenarios.remove(0);
+        // the options re-shape the widest scenario of the tier
+        let widest = (0..scenarios.len()).max_by_key(|&i| (scenarios[i].bases.len(), scenarios.len() - i)).unwrap_or(0);
+        let mut al = scenarios.remove(widest);
         if let Some(d) = ctx.opt("depth") {
             al.depth = d.parse().unwrap_or(al.depth);
         }
@@ -735,6 +742,10 @@ fn main() {
         if in_alphabet {
             if ids[0] != ids[1] {
                 machinery_error(&format!("the two value instances of base {name} do not share a shape id"));
+            }
+            if let Some(other) = init_refs.get(&ids[0]) {
+                // the state keeps proofs by shape id: two bases of one shape would silently be one
+                machinery_error(&format!("bases {name} and {} share a shape id: pick bases of distinct shapes", match other { Ref::Base(n) => n.as_str(), _ => "?" }));
             }
             if name.starts_with('W') {
                 // the point of the wiring variants: one shape id, two preprocessed commitments
@@ -1061,7 +1072,15 @@ fn main() {
     let mut seen_tags = BTreeSet::new();
     for c in &w.order {
         let s = &w.memo[c];
-        let tag = format!("{}|{}|{}", matches!(c, Call::L { .. }), s.facts.given, s.verdict.tag());
+        let tag = format!(
+            "{}|{}|{}",
+            match c {
+                Call::L { reuse, .. } => format!("L{reuse}"),
+                _ => "A".to_string(),
+            },
+            s.facts.given,
+            s.verdict.tag()
+        );
         if seen_tags.insert(tag) || (samples.len() < 14 && s.hist.len() >= 2 && s.out_shape.is_some() && fnv64(w.call_label(c).as_bytes()) % 23 == 0) {
             samples.push(json!({
                 "history": s.hist.iter().map(|a| a.s()).collect::<Vec<_>>().join(" ; "),
